@@ -218,7 +218,7 @@ Definition macs_eqb (a b : list (N * list N)) : bool :=
 
 (** bit 1: the model of [update_macs] disagrees with the implementation; bit 2 / 16: the
     implementation's segment is not the specification's beacon (16: only peer-entry MACs
-    differ -- class of the repaired finding C01-beacon-peer-beta) *)
+    differ -- class of the open finding C01-peer-mac-over-beta-i) *)
 Definition sverdict (c : scase) : N :=
   let us := sc_uentries c in
   let code := seg_macs (code_beacon hop_mac (sc_beta0 c) (sc_ts c) us) in
@@ -260,7 +260,12 @@ Definition verdict_c01 (c : ncase) : N :=
       let '(_, e2, _) := ref_sim hop_mac (S (length (c_hops c))) t (c_now c) (c_dst c) 0 rp in
       optN_eqb (rend_delivered e2) (Some (c_at c))
     else true in
-  (if mismatch then 1 else 0) + (if ok && back then 0 else 2) + (if back then 0 else 256).
+  (* peering paths are assembled from code-built segments whose peer-entry MACs deviate from
+     the specification: class of the open finding C01-peer-mac-over-beta-i (bit 16) *)
+  let fail := negb (ok && back) in
+  let known := fail && uses_peering (k_path pk) in
+  (if mismatch then 1 else 0) + (if fail && negb known then 2 else 0) + (if known then 16 else 0)
+  + (if back then 0 else 256).
 Definition verdicts_c01 (cs : list ncase) : list N := map verdict_c01 cs.
 
 (** * C01, last sentence: joinable segments imply an offered path (oracle on the
